@@ -19,7 +19,7 @@ ID = "C15"
 META = {
     "rule": "for each graph of the family: BFS over the state graph whose nodes are bitwise digests of EVERYTHING reachable from the Graph object (generic __dict__ walker: poses, estimates, "
     "information, offsets, ids, flags, list orders, caches) and whose transitions are ~35 + 14 n^2 queries (graph/edge/vertex/pose queries incl. the numerical-Jacobian fallback, "
-    "exports, equals, every pose operator and Jacobian method on every ordered pose pair, copy-then-mutate, p2=p; p2+=q) plus bounded environment steps (<=2 optimizer calls from {one iteration, one iteration with fix_first_pose, a converging run}, <=1 in-place user edit / rebinding of a pose). "
+    "exports, equals, every pose operator and Jacobian method on every ordered pose pair, copy-then-mutate, writing into the arrays returned by to_array / to_compact, holding returned values while the same queries run for the other edges / poses, p2=p; p2+=q) plus bounded environment steps (<=2 optimizer calls from {one iteration, one iteration with fix_first_pose, a converging run}, <=1 in-place user edit / rebinding of a pose). "
     "Graphs include vertices whose pose object IS an edge's measurement / offset object (object reuse). The search runs to FIXPOINT (no new state), so every interleaving of any length is covered. Invariants on every "
     "transition: observable snapshot bitwise unchanged by a query; a query's value equals the value on a freshly constructed twin of the same observable state (path independence / no hidden "
     "state); optimize changes nothing but poses of non-fixed vertices (+ first vertex's flag when asked) and does exactly what it does on a fresh twin (no hidden state between calls). non-trivial = transition whose query returns a non-constant value",
@@ -206,7 +206,7 @@ def twin(w):
 
 
 # ------------------------------------------------------------------------------------------ operation alphabet
-POSE_UNARY = ["inverse", "copy", "to_array", "to_compact", "position", "orientation", "jacobian_boxplus", "jacobian_inverse", "copy_mutate", "box_small", "box_big"]
+POSE_UNARY = ["inverse", "copy", "to_array", "to_compact", "position", "orientation", "jacobian_boxplus", "jacobian_inverse", "copy_mutate", "box_small", "box_big", "to_array_scribble", "to_compact_scribble", "held"]
 POSE_BINARY = [
     "add", "sub", "iadd",
     "jacobian_self_oplus_other_wrt_self", "jacobian_self_oplus_other_wrt_self_compact", "jacobian_self_oplus_other_wrt_other", "jacobian_self_oplus_other_wrt_other_compact",
@@ -218,7 +218,7 @@ POSE_BINARY = [
 def query_ops(w):
     ops = ["g.chi2", "g.equals", "g.to_g2o"]
     for i in range(len(w.edges)):
-        for q in ("error", "chi2", "jac", "numjac", "cgh", "valid", "equals", "to_g2o"):
+        for q in ("error", "chi2", "jac", "numjac", "cgh", "valid", "equals", "to_g2o", "jac_held"):
             ops.append("e%d.%s" % (i, q))
     n = len(w.verts)
     for j in range(n):
@@ -300,6 +300,20 @@ def apply_op(w, op, tmpdir):
             return _safe(e.calc_chi2_gradient_hessian)
         if rest == "valid":
             return _safe(e.is_valid)
+        if rest == "jac_held":
+            # values handed out stay what they were while the same queries are evaluated for the OTHER edges and poses
+            def f():
+                held = [e.calc_error()] + list(e.calc_jacobians())
+                keep = [np.array(h, copy=True) for h in held]
+                for e2 in w.edges:
+                    if e2 is not e:
+                        e2.calc_error()
+                        e2.calc_jacobians()
+                        e2.calc_chi2_gradient_hessian()
+                g.calc_chi2()
+                ok = all(np.asarray(h).shape == k.shape and np.array_equal(np.asarray(h), k, equal_nan=True) for h, k in zip(held, keep))
+                return ("held_unchanged", bool(ok), keep)
+            return _safe(f)
         if rest == "equals":
             return _safe(lambda: e.equals(e))
         if rest == "to_g2o":
@@ -329,6 +343,31 @@ def apply_op(w, op, tmpdir):
                     keep = d.copy()
                     r = p + d
                     return ("operand_unchanged", bool(np.array_equal(d, keep)), r)
+                return _safe(f)
+            if u in ("to_array_scribble", "to_compact_scribble"):
+                # the arrays handed out by to_array / to_compact are copies: a caller may write into them
+                def f():
+                    r = getattr(p, u[: -len("_scribble")])()
+                    keep = np.array(r, copy=True)
+                    r[...] = r + 1.5
+                    return keep
+                return _safe(f)
+            if u == "held":
+                def f():
+                    names = ["jacobian_boxplus", "jacobian_inverse", "to_array", "to_compact", "copy"]
+                    held = [getattr(p, n)() for n in names] + [p.inverse, p + p, p - p]
+                    keep = [np.array(h, copy=True) for h in held]
+                    for v2 in w.verts:
+                        q = v2.pose
+                        if q is p:
+                            continue
+                        for n in names:
+                            getattr(q, n)()
+                        q.inverse
+                        q + q
+                        q - q
+                    ok = all(np.asarray(h).shape == k.shape and np.array_equal(np.asarray(h), k, equal_nan=True) for h, k in zip(held, keep))
+                    return ("held_unchanged", bool(ok), keep)
                 return _safe(f)
             if u in ("inverse", "position", "orientation"):
                 return _safe(lambda: getattr(p, u))
@@ -464,6 +503,8 @@ def check_transition(base, op, tmp, table):
             msgs.append("query %s changed observable state: %s" % (op, "; ".join(what) or "list structure"))
         if isinstance(ret, tuple) and len(ret) == 3 and ret[0] == "operand_unchanged" and not ret[1]:
             msgs.append("query %s mutated its increment operand" % op)
+        if isinstance(ret, tuple) and len(ret) == 3 and ret[0] == "held_unchanged" and not ret[1]:
+            msgs.append("query %s: values returned earlier changed while the same queries were evaluated for other edges / poses (shared result buffer)" % op)
         # path independence: same value as on a freshly constructed twin of the same observable state
         key = (X.digest(obs0), op)
         vd = X.value_digest(ret)
